@@ -262,7 +262,7 @@ func (fc *FuncCtx) execStmt(st *State, s ast.Stmt) flow {
 				if i < len(vs.Values) {
 					v := fc.evalExpr(st, vs.Values[i])
 					fc.assignObj(st, obj, v)
-				} else if isStruct(obj.Type()) && fc.sortOf(obj.Type()).Kind == "V" {
+				} else if isStruct(obj.Type()) && fc.bindOf(obj.Type()) == "" {
 					// a struct variable is an object of its own (its address is non-nil and fresh)
 					st.env[obj] = Val{T: fc.newRef(st, n.Name), Typ: obj.Type()}
 				} else {
@@ -342,7 +342,7 @@ func (fc *FuncCtx) assignObj(st *State, obj types.Object, v Val) {
 		return
 	}
 	t := fc.coerce(st, v, obj.Type())
-	if isStruct(obj.Type()) && t.Sort.Kind == "V" {
+	if isStruct(obj.Type()) && t.Sort.Kind == "V" && fc.bindOf(obj.Type()) == "" {
 		t = fc.copyStruct(st, t, obj.Type())
 	}
 	st.env[obj] = Val{T: t, Typ: obj.Type()}
